@@ -11,24 +11,40 @@
 From CM Require Import Lib.Str Lib.QualSteps Gen.Consts Handshake.Model Handshake.Proofs.
 Open Scope N_scope.
 
-(** "answered yes for the handshake's name n, and nothing was asked again before position i" *)
-Definition covered_by_yes (n : name) (g : list effect) (i : nat) : Prop :=
-  exists j y, (j < i)%nat /\ nth_error g j = Some y /\ (y = EDecision n true \/ y = EAllow n true) /\
-    forall k z, (j < k < i)%nat -> nth_error g k = Some z -> is_eval z = false.
+(** "the policy answered yes about y, and nothing was asked again before position i" *)
+Definition covered_by_yes (y : name) (g : list effect) (i : nat) : Prop :=
+  exists j z, (j < i)%nat /\ nth_error g j = Some z /\ (z = EDecision y true \/ z = EAllow y true) /\
+    forall k z', (j < k < i)%nat -> nth_error g k = Some z' -> is_eval z' = false.
 
-(** F [gated]: while on-demand is enabled, every Issuer.Issue and every read of a certificate
-    bundle (positions with [needs_gate]) in the effect list of any goroutine of any handshake, in
-    any world, is preceded in that same goroutine by a policy evaluation for the handshake's own
-    name that answered yes and is the most recent evaluation; and that name qualifies. *)
+(** F [gated]: while on-demand is enabled, in the effect list of any goroutine of any handshake, in
+    any world (whose bundles are stored under the first subject of their certificate, as certmagic
+    stores them):
+    - every Issuer.Issue for a subject m is preceded in that same goroutine by a policy evaluation
+      ABOUT m ITSELF (the subject the issuer is asked for, not merely the handshake's name) that
+      answered yes and is the most recent evaluation, and m qualifies;
+    - every read of a certificate bundle m is preceded likewise by a most recent yes about a
+      qualifying name y of which m is a bundle key: y itself, y's wildcard variant
+      (loadCertFromStorage's fallback), or the bundle of the certificate the handshake matched in the
+      cache ([hit_key]: reloadManagedCertificate);
+    - every name the policy is asked about is the handshake's own name, its wildcard variant, or
+      the first subject of the matched certificate (the one a revoked certificate is replaced
+      under, fix 7a4c3bf). *)
 Theorem C02_gated : forall is_space w h own kids res w',
-  handshake is_space w h = (own, kids, res, w') -> od_on w = true ->
+  handshake is_space w h = (own, kids, res, w') -> od_on w = true -> store_wf w ->
   forall g, In g (own :: kids) ->
-  forall i x, nth_error g i = Some x -> needs_gate x = true ->
-  exists n, h_name h = Some n /\ qualifies is_space n = true /\ covered_by_yes n g i.
+  forall i x, nth_error g i = Some x ->
+  (forall m, x = EIssue m -> qualifies is_space m = true /\ covered_by_yes m g i) /\
+  (forall m, x = ELoad m -> exists n y, h_name h = Some n /\ qualifies is_space y = true /\
+     covered_by_yes y g i /\ load_ok (hit_key w h) y m = true /\ In y (cands n (hit_key w h))).
 Proof.
-  intros is_space w h own kids res w' H D g Hg i x Hi Hx.
-  destruct (gated_positions is_space _ _ _ _ _ _ H D g Hg i x Hi Hx) as (n & j & y & A & B & C & E & F & G).
-  exists n. split; [exact A|]. split; [exact B|]. exists j, y. auto.
+  intros is_space w h own kids res w' H D W g Hg i x Hi. split; intros m ->.
+  - destruct (gated_positions is_space _ _ _ _ _ _ H D W g Hg i _ Hi eq_refl)
+      as (n & y & j & z & A & B & F & C & E & Y & _ & G).
+    cbn [fit1] in F. apply str_eqb_eq in F. subst y. split; [exact B|]. exists j, z. auto.
+  - destruct (gated_positions is_space _ _ _ _ _ _ H D W g Hg i _ Hi eq_refl)
+      as (n & y & j & z & A & B & F & C & E & Y & K & G).
+    exists n, y. split; [exact A|]. split; [exact B|]. split; [exists j, z; auto|]. split; [exact F|].
+    apply existsb_exists in K as (c & Hc & Ec). apply str_eqb_eq in Ec. subst c. exact Hc.
 Qed.
 Print Assumptions C02_gated.
 
@@ -54,18 +70,24 @@ Proof. exact no_issue_without_on_demand. Qed.
 Print Assumptions C02_no_issue_without_on_demand.
 
 (** both clauses for every handshake of every history: any sequence of handshakes interleaved with
-    policy changes, storage deletions/additions by others, certificates ageing / being revoked /
-    evicted ([op], [run]) *)
-Theorem C02_every_history : forall is_space ops w o, In o (fst (run is_space w ops)) ->
+    policy changes, storage deletions/additions by others (bundles stored under the first subject of
+    their certificate), certificates ageing / being revoked / evicted ([op], [run]) *)
+Theorem C02_every_history : forall is_space ops w o, Forall (op_wf) ops -> store_wf w ->
+  In o (fst (run is_space w ops)) ->
   (od_on (ho_world o) = true ->
    forall g, In g (ho_own o :: ho_kids o) ->
-   forall i x, nth_error g i = Some x -> needs_gate x = true ->
-   exists n, h_name (ho_hello o) = Some n /\ qualifies is_space n = true /\ covered_by_yes n g i) /\
+   forall i x, nth_error g i = Some x ->
+   (forall m, x = EIssue m -> qualifies is_space m = true /\ covered_by_yes m g i) /\
+   (forall m, x = ELoad m -> exists n y, h_name (ho_hello o) = Some n /\ qualifies is_space y = true /\
+      covered_by_yes y g i /\ load_ok (hit_key (ho_world o) (ho_hello o)) y m = true /\
+      In y (cands n (hit_key (ho_world o) (ho_hello o))))) /\
   (w_od (ho_world o) = None ->
    forall g, In g (ho_own o :: ho_kids o) -> forall s, ~ In (EIssue s) g).
 Proof.
-  intros is_space ops w o Ho. destruct (run_sound is_space ops w o Ho) as [w1 H]. split.
-  - intros D. exact (C02_gated is_space _ _ _ _ _ _ H D).
+  intros is_space ops w o OW W Ho. destruct (run_sound is_space ops w o Ho) as [w1 H].
+  destruct (run_gated_ok is_space ops w OW W) as [_ WF]. rewrite Forall_forall in WF. specialize (WF o Ho).
+  split.
+  - intros D. exact (C02_gated is_space _ _ _ _ _ _ H D WF).
   - intros D. exact (no_issue_without_on_demand is_space _ _ _ _ _ _ H D).
 Qed.
 Print Assumptions C02_every_history.
@@ -108,15 +130,16 @@ Print Assumptions C02_qualifies_is_documented_rule.
     implementation's observed effects is a theorem of the model: on the observable part of the
     model's own effects it is always true *)
 Theorem C02_monitor_holds_of_model : forall is_space w h own kids res w',
-  handshake is_space w h = (own, kids, res, w') ->
-  spec_hs is_space (w_od w) (h_name h) (map (filter observable) (own :: kids)) = true.
+  handshake is_space w h = (own, kids, res, w') -> store_wf w ->
+  spec_hs is_space (w_od w) (h_name h) (hit_key w h) (map (filter observable) (own :: kids)) = true.
 Proof. exact spec_hs_model. Qed.
 Print Assumptions C02_monitor_holds_of_model.
 
-Theorem C02_monitor_every_history : forall is_space ops w,
-  Forall (fun o => gated_ok is_space (od_on (ho_world o)) (h_name (ho_hello o)) (ho_own o :: ho_kids o) = true)
+Theorem C02_monitor_every_history : forall is_space ops w, Forall op_wf ops -> store_wf w ->
+  Forall (fun o => gated_ok is_space (od_on (ho_world o)) (h_name (ho_hello o))
+                            (hit_key (ho_world o) (ho_hello o)) (ho_own o :: ho_kids o) = true)
          (fst (run is_space w ops)).
-Proof. exact run_gated_ok. Qed.
+Proof. intros is_space ops w OW W. exact (proj1 (run_gated_ok is_space ops w OW W)). Qed.
 Print Assumptions C02_monitor_every_history.
 
 (** a handshake that runs alone returns without waiting: no goroutine of it ever sits in one of
@@ -219,3 +242,25 @@ Example C02_ex_manager_empty_then_issuance :
     ([EManager ex_name; EAllow ex_name true; ELoad ex_name; ELoad (wild ex_name); EExists ex_name; EIssue ex_name; ELoad ex_name],
      [], RCert 1).
 Proof. vm_compute. reflexivity. Qed.
+
+(** the witness of the fixed finding C02-revoked-renewal-other-subject: a cached wildcard certificate
+    is revoked, the handshake for foo.ex matches it; the policy permits foo.ex but not *.ex.  The
+    policy is asked about *.ex, the subject forceRenew would renew: denied, evicted, nothing issued
+    (before fix 7a4c3bf the policy was asked about foo.ex and the issuer about *.ex) *)
+Example C02_ex_revoked_wildcard_other_subject :
+  let wc := wild ex_name in
+  let c := Cert 1 [wc] true false false true false None in
+  let w := World (Some (PDecision (fun _ x => str_eqb x ex_name))) 0 [c] [(wc, c)] 0 2 in
+  let '(own, kids, res, w') := handshake ex_sp w (Hello (Some ex_name) (Some 1) None MgrNone true false) in
+  (own, kids, res, w_cache w') = ([], [[EDecision wc false; EEvict 1]], RCert 1, []).
+Proof. vm_compute. reflexivity. Qed.
+(** the hypotheses of [C02_gated] are satisfiable: that world is well-formed *)
+Example C02_ex_store_wf :
+  let wc := wild ex_name in
+  let c := Cert 1 [wc] true false false true false None in
+  store_wf (World None 0 [c] [(wc, c)] 0 2).
+Proof.
+  intros wc c k c'. unfold store_find; cbn [w_store assoc].
+  destruct (str_eqb wc k) eqn:E; [|discriminate]. intros H; inversion H; subst.
+  apply str_eqb_eq in E. exact E.
+Qed.
